@@ -450,7 +450,7 @@ func (c08) Run(t *testing.T, cs Case, trace bool) *Outcome {
 			}
 		}
 		w.Start(s, ctx)
-		if r := s.Settle(2000000); r != simrt.Quiescent {
+		if r := s.Settle(1000000); r != simrt.Quiescent {
 			out.HarnessErr = fmt.Sprintf("C08 run did not become quiescent: %v live=%v", r, s.Live())
 			return
 		}
